@@ -367,8 +367,7 @@ func (fx *FnExec) finalizeAxioms() []string {
 	// interface satisfaction facts for known concrete types
 	for iid, it := range fx.implQueries {
 		iface := it.Underlying().(*types.Interface)
-		for k, id := range fx.typeIDs {
-			_ = k
+		for id := 1; id <= len(fx.typeByID); id++ {
 			t := fx.typeByID[id-1]
 			if _, isI := t.Underlying().(*types.Interface); isI {
 				continue
@@ -410,7 +409,7 @@ func (fx *FnExec) buildQueryMode(o *Obligation, extra []string, relaxed bool) st
 		b.WriteByte('\n')
 		if relaxed && strings.HasPrefix(d, "(declare-const ") {
 			if f := strings.Fields(d); len(f) >= 3 && f[2] == "Str)" {
-				b.WriteString("(assert (>= (strlen " + f[1] + ") 0))\n")
+				b.WriteString("(assert (and (>= (strlen " + f[1] + ") 0) (<= (strlen " + f[1] + ") 1152921504606846976)))\n")
 			}
 		}
 	}
